@@ -379,6 +379,9 @@ def main(argv=None):
             ctx.M = None
         else:
             ctx.M = Driver(pid)
+        if not a.replay:
+            for old in (VERIF / "replay").glob(f"{pid}-{seed}-*.json"):
+                old.unlink()
         if a.replay:
             rec = json.loads(Path(a.replay).read_text())
             rc = mod.replay(ctx, rec) if hasattr(mod, "replay") else (print(json.dumps(rec, indent=1)) or 0)
